@@ -20,6 +20,7 @@ def main(tier, seed, replay):
         k.validate_profile("split", 80)
         k.validate_profile("timeout", 80)
         k.validate_profile("rel", 80)
+        k.replay_behaviours("EXH_Mut_c1", mc_consts(kinds=("spawn", "insert", "mutate", "remove"), ops=2, ticks=2, idle=1, cframes=1), 0, invariants=inv)
     else:
         k.model_check("MC_Mut", mc_consts(ops=4, ticks=3, idle=2), inv, timeout=3000)
         k.model_check("MC_Mut2", mc_consts(ents=("e1", "e2"), ops=3, ticks=3, kinds=("spawn", "mutate", "insert")), inv, timeout=3000)
@@ -34,6 +35,8 @@ def main(tier, seed, replay):
         k.validate_profile("rel", 1500)
         k.validate_profile("rel_split", 1000)
         k.validate_profile("rel_vis", 1000, known=("F17",))
+        k.replay_behaviours("EXH_Mut_c1", mc_consts(kinds=("spawn", "insert", "mutate", "remove"), ops=3, ticks=2, idle=1, cframes=1), 0, invariants=inv, timeout=3000)
+        k.replay_behaviours("EXH_Timeout", mc_consts(kinds=("spawn", "mutate", "timeout"), ops=3, ticks=3, idle=1, cframes=1), 0, invariants=inv, timeout=3000)
     k.selftest(tr)
     return k.finish(assumptions=[
         "'at rest' = after the settle rounds of the driver (perfect link, every acknowledgement delivered) one more tick is run and must send nothing",
